@@ -349,6 +349,9 @@ func genArgFault(r *Rng, d *DeclSpec, p *Plan, twinCalls []Call) (f ArgFault, ok
 		k := r.Intn(len(cands))
 		f.Pos = cands[k]
 		f.Text = p.Toks[f.Pos].Text + r.Pick([]string{"x", "q", "-"})
+		if r.Fork("emptyword").Chance(1, 6) {
+			f.Text = "" // the empty word is a word like any other: no command has that name
+		}
 		// the parent of the k-th command word requires a command?
 		need := !d.SubOptional
 		cs := d.Commands
